@@ -14,7 +14,7 @@ SPEC = {'level': 'exploration',
                 rule='operation histories vs announcement-set refinement model; non-trivial = eviction while a within-share peer held announcements and a '
                      'peer/block erase that removed something'),
             gen('vh_c35', 'up_txorphan', 1500, 40000, rule="upstream fuzz target 'txorphan'; supplementary"),
-            gen('vh_c35', 'up_txorphan_protected', 1000, 30000, rule="upstream fuzz target 'txorphan_protected' (honest peers within limits keep their orphans); supplementary"),
+            gen('vh_c35', 'up_txorphan_protected', 400, 12000, rule="upstream fuzz target 'txorphan_protected' (honest peers within limits keep their orphans); supplementary"),
             gen('vh_c35', 'up_txorphanage_sim', 1000, 30000, rule="upstream fuzz target 'txorphanage_sim' (its own simulation model); supplementary")]}
 
 META = {'level_text': 'Generated operation histories (4k per quick run, up to 250 operations over up to 10 peers, one favoured "whale" peer) against an announcement-set '
